@@ -393,6 +393,8 @@ def check(sc, _warm=[]):
         gc.collect()
         gc.freeze()
         _warm.append(True)
+    if sc.get("reactor") == "real" and os.environ.get("VERIF_NO_REAL"):
+        return None   # wall-clock scenarios are skipped when the harness runs as a check's stand-in (no timing flakes)
     obs = run_scenario(sc)
     required = judge(sc, obs)
     if required is None:
